@@ -46,6 +46,7 @@ def run(cx):
     from . import scalar_rules as SR
     _run2(cx)
     SR.sm2_scalar(cx)
+    SR.acc_rules(cx, 'sm2')
     SR.curve_predicates(cx)
 
 
